@@ -7,9 +7,9 @@ import (
 
 // Job is what the orchestrator hands to a harness driver (JSON file).
 type Job struct {
-	Thorough bool      `json:"thorough"`
-	Mode     string    `json:"mode"`
-	Units    []JobUnit `json:"units"`
+	Thorough bool              `json:"thorough"`
+	Mode     string            `json:"mode"`
+	Units    []JobUnit         `json:"units"`
 	Params   map[string]string `json:"params,omitempty"`
 }
 
@@ -43,16 +43,16 @@ type JobHeader struct {
 }
 
 type JobMethod struct {
-	Name     string      `json:"name"`
-	In       string      `json:"in"`
-	Out      string      `json:"out"`
-	Verb     string      `json:"verb"` // documented verb (POST when unset)
-	Path     string      `json:"path"` // documented full path template
-	Config   bool        `json:"config"`
-	PathVars []string    `json:"path_vars"`
-	Query    []JobQuery  `json:"query"`
-	Headers  []JobHeader `json:"headers"` // effective declarations: service then method (method replaces same name)
-	SvcHeaders []JobHeader `json:"svc_headers"`
+	Name        string      `json:"name"`
+	In          string      `json:"in"`
+	Out         string      `json:"out"`
+	Verb        string      `json:"verb"` // documented verb (POST when unset)
+	Path        string      `json:"path"` // documented full path template
+	Config      bool        `json:"config"`
+	PathVars    []string    `json:"path_vars"`
+	Query       []JobQuery  `json:"query"`
+	Headers     []JobHeader `json:"headers"` // effective declarations: service then method (method replaces same name)
+	SvcHeaders  []JobHeader `json:"svc_headers"`
 	MethHeaders []JobHeader `json:"meth_headers"`
 }
 
